@@ -123,6 +123,15 @@ func TestC17MalformedAndFaults(t *testing.T) {
 		}
 		steps = append(steps, final)
 		nCalls := c.callCount()
+		diag := func(r *rig, where any) {
+			if msg := r.handleLeakDiagnostic(); msg != "" {
+				rec.Label("diagnostic:leaf_handles_not_returned")
+				rec.Note(msg + "; script=" + clip(jsonOf(where)))
+			} else if r.w.nfs != nil {
+				rec.Label("diagnostic:handle_pool_empty_after_teardown")
+			}
+		}
+		diag(r, []any{header, steps})
 
 		labels := []string{"fault_free_run"}
 		for _, m := range sc.malforms {
@@ -169,9 +178,20 @@ func TestC17MalformedAndFaults(t *testing.T) {
 						}
 					}
 				}
+				if fc.callCount() <= k && debugCalls {
+					println("baseline calls:")
+					for i, k := range c.calls {
+						println(i, k)
+					}
+					println("replay calls:")
+					for i, k := range fc.calls {
+						println(i, k)
+					}
+				}
 				if fc.callCount() <= k {
 					rt.Fatalf("harness bug: replay with %+v made only %d CAS reads; script=%s", fh, fc.callCount(), jsonOf([]any{header, fh, steps}))
 				}
+				diag(fr, []any{header, fh, steps})
 				fl := []string{"fault:" + fh.Kind, "fault_at:" + what}
 				if fr.retriedOK > 0 {
 					fl = append(fl, "retry_succeeded")
